@@ -797,10 +797,8 @@ def run(tier: str, replay: str | None = None):
         broken_translation = str(ex)
         gen = None
     model_ok = False
-    if gen is None:
-        # keep the last good Gen/Annot.v so that the model can still attribute known findings
-        ok, _ = lib.coq_make(["theories/Annot/DefSig.vo"])
-        model_ok = ok
+    # when the translator fails the model is not run (a stale Gen/Annot.v could describe another tree):
+    # known findings can then not be attributed and are reported like any other failing input
     if gen is not None:
         proof = lib.prove(PROP, gen, thorough=(tier == "thorough"))
         model_ok = not any("build failed" in b for b in proof.broken)
